@@ -118,7 +118,7 @@ class Gen:
             if rng.random() < 0.2:
                 child["after"] = rng.choice(DELAYS)
             elif rng.random() < 0.05:
-                child["at"] = rng.choice([4, 8])
+                child["at"] = rng.choice([40, 64])      # far in the future: never in the past
             children.append(child)
         op["children"] = children
         body = []
